@@ -33,7 +33,7 @@ let show_ev o s i ev = match ev with
   | WETickRet (_, _) -> "r:tick"
   | WERet (_, _, _, _) -> "r:req"
   | WENone -> "done"
-  | WEPanicRange _ -> "panic:step_should_be_in_range_[0,_maxTimeout)"
+  | WEPanicRange _ -> "panic:step_should_be_in_range_[0__maxTimeout)"
   | WEPanicClose _ -> "panic:close_of_closed_channel"
   | WEPanicIndex -> "panic:runtime_error:_index_out_of_range"
   | _ -> "y" ^ string_of_int (int_of_nat (wh_site o s i))
